@@ -30,6 +30,7 @@ import (
 	"runtime"
 	"strings"
 	"sync"
+	"sync/atomic"
 	"time"
 
 	"github.com/hashicorp/raft"
@@ -177,6 +178,15 @@ var missing = []int{-1, 0, 0, 0, 0, 0, 0}
 // single-field alterations (spec/Verifier.tla Alter), concretised as bit flips,
 // truncation / extension, replacement
 
+// laneCount spreads the bit flips of the integer fields over all eight bytes of the value deterministically (every lane,
+// bit 63 included, is hit within eight alterations): "any single-field mutation", not the bits a random draw favours.
+var laneCount uint32
+
+func laneBit(rng *rand.Rand) uint {
+	lane := uint(atomic.AddUint32(&laneCount, 1)-1) % 8
+	return lane*8 + uint(rng.Intn(8))
+}
+
 func alter(l *raft.Log, f, m string, rng *rand.Rand) *raft.Log {
 	c := cloneLog(l)
 	switch f {
@@ -191,7 +201,7 @@ func alter(l *raft.Log, f, m string, rng *rand.Rand) *raft.Log {
 			c.Index++
 		} else { // alt3 (harness only): wild values
 			if rng.Intn(2) == 0 {
-				c.Index ^= 1 << uint(1+rng.Intn(40))
+				c.Index ^= 1 << (1 + laneBit(rng)%63)
 			} else {
 				c.Index += 2 + uint64(rng.Intn(5))
 			}
@@ -200,14 +210,16 @@ func alter(l *raft.Log, f, m string, rng *rand.Rand) *raft.Log {
 		if m == "alt1" {
 			c.Term = 0
 		} else {
-			if rng.Intn(2) == 0 {
+			if rng.Intn(4) == 0 {
 				c.Term++
 			} else {
-				c.Term ^= 1 << uint(rng.Intn(63))
+				c.Term ^= 1 << laneBit(rng)
 			}
 		}
 	case "y":
-		if c.Type == raft.LogCommand {
+		if rng.Intn(3) == 0 {
+			c.Type ^= raft.LogType(1 << uint(2+rng.Intn(6))) // a value that is no known log type
+		} else if c.Type == raft.LogCommand {
 			c.Type = raft.LogConfiguration
 		} else {
 			c.Type = raft.LogCommand
